@@ -58,7 +58,7 @@ Definition sa_handle (n : N) (self : bool) (st : sa_handlers) : prog sa_out :=
     else drop_).   (* SANDNET_ADVERTISEMENT: break; default: log *)
 
 (* ---------------------------------------------------------------- proof *)
-Lemma sandnet_bounded n self st : n <= SA_PACKET_SIZE -> bounded n (sa_handle n self st).
+Lemma sandnet_bounded_any n self st : n <= 2147483647 -> bounded n (sa_handle n self st).
 Proof.
   intros Hn. unfold sa_handle, SA_DMX_HEADER, SA_CDMX_HEADER, SA_PACKET_SIZE, SA_OPCODE_SIZE,
     SA_OFF_opcode, SA_OFF_contents, SA_DMX_SIZE, SA_DMX_DATA, SA_OFF_dmx_group, SA_OFF_dmx_universe,
@@ -69,3 +69,7 @@ Proof.
   - apply rle_decode_bounded; lia.
   - intros a. constructor.
 Qed.
+
+(* for the capacity of the real receive buffer *)
+Lemma sandnet_bounded n self st : n <= SA_PACKET_SIZE -> bounded n (sa_handle n self st).
+Proof. intros Hn. apply sandnet_bounded_any. unfold SA_PACKET_SIZE in Hn. lia. Qed.
